@@ -370,10 +370,28 @@ Definition get_unit (header : dict (rv T)) : option (option pystr) :=
   | Some _ => None
   end.
 
-Definition dict2crystalmap (v : rv T) : option cmap :=
+(* repair 4fb3c89: hdf5group2dict returned the only element along the first axis of every per-point dataset of
+   a one-point map; when "id" came back as a scalar, every dataset of "data" gets a new first axis
+   (np.asarray(v)[np.newaxis]).  A numpy scalar keeps the dtype of its dataset; the store model forgets the dtype
+   of a scalar, so the reader model is given the dtypes of the datasets of the "data" group of the file (dts). *)
+Definition newaxis (dt : option string) (v : rv T) : rv T :=
+  match v with
+  | RI z => RA (mkArr (match dt with Some d => d | None => i64 end) [1%nat] (DI [z]))
+  | RF x => RA (mkArr (match dt with Some d => d | None => f64 end) [1%nat] (DF [x]))
+  | RB b => RA (mkArr (match dt with Some d => d | None => b8 end) [1%nat] (DB [b]))
+  | RA a => RA (mkArr (a_dt a) (1%nat :: a_sh a) (a_d a))
+  | other => other
+  end.
+Definition is_scalar (v : option (rv T)) : bool :=
+  match v with Some (RI _) | Some (RF _) | Some (RB _) => true | _ => false end.
+Definition restore_point_axis (dts : list (string * string)) (data : dict (rv T)) : dict (rv T) :=
+  if is_scalar (lookup "id"%string data)
+  then map (fun kv => (fst kv, newaxis (lookup (fst kv) dts) (snd kv))) data else data.
+
+Definition dict2crystalmap_dt (dts : list (string * string)) (v : rv T) : option cmap :=
   match v with
   | RD top =>
-    match getD top "data", getD top "header" with
+    match option_map (restore_point_axis dts) (getD top "data"), getD top "header" with
     | Some data, Some header =>
       match getA data "phi1", getA data "Phi", getA data "phi2" with
       | Some a1, Some a2, Some a3 =>
@@ -410,10 +428,25 @@ Definition dict2crystalmap (v : rv T) : option cmap :=
   | _ => None
   end.
 
+Definition dict2crystalmap (v : rv T) : option cmap := dict2crystalmap_dt [] v.
+
+(* dtypes of the numeric datasets of /crystal_map/data *)
+Definition h5_group (f : h5 T) (k : string) : option (h5 T) :=
+  match f with HG l => lookup k l | _ => None end.
+Definition data_dtypes (f : h5 T) : list (string * string) :=
+  match h5_group f "crystal_map"%string with
+  | Some cm =>
+      match h5_group cm "data"%string with
+      | Some (HG l) => flat_map (fun kv => match snd kv with HA a => [(fst kv, a_dt a)] | _ => [] end) l
+      | _ => []
+      end
+  | None => []
+  end.
+
 (* file_reader *)
 Definition load (f : h5 T) : option cmap :=
   match h52dict f with
-  | RD top => match lookup "crystal_map"%string top with Some cm => dict2crystalmap cm | None => None end
+  | RD top => match lookup "crystal_map"%string top with Some cm => dict2crystalmap_dt (data_dtypes f) cm | None => None end
   | _ => None
   end.
 
